@@ -26,7 +26,8 @@ type Src struct {
 	// Valid: parses, type checks and declares exactly one contract or contract
 	// interface with the pool's name.
 	Valid bool
-	// Invalid is the substring the error must contain when !Valid.
+	// Invalid is what the error must contain when !Valid: a substring of the
+	// message, or "type:<name>" for a Go error type in the error tree.
 	Invalid string
 	Iface   bool
 	Version int
@@ -166,7 +167,7 @@ func Pool(name string) []Src {
 	p[SFieldAdded] = build(name, spec{label: "field-added", version: 4, xType: "Int", extraField: "y"})
 	p[SFieldRetyped] = build(name, spec{label: "field-retyped", version: 5, xType: "String"})
 	p[SFieldRemoved] = build(name, spec{label: "field-removed", version: 6, xType: ""})
-	p[STypeError] = Src{Label: "type-error", Invalid: "cannot deploy invalid contract",
+	p[STypeError] = Src{Label: "type-error", Invalid: "type:CheckerError",
 		Code: fmt.Sprintf("access(all) contract %s {\n    access(all) fun version(): Int { return \"six\" }\n}\n", name)}
 	p[SNameMismatch] = Src{Label: "name-mismatch", Invalid: "the name argument must match the name of the declaration",
 		Code: fmt.Sprintf("access(all) contract %sX {\n    access(all) fun version(): Int { return 7 }\n}\n", name)}
@@ -177,12 +178,12 @@ func Pool(name string) []Src {
 		Code: fmt.Sprintf("access(all) contract interface %s {\n    access(all) view fun version(): Int\n}\n", name)}
 	p[SInterface2] = Src{Label: "interface2", Valid: true, Iface: true, Version: 12, Nested: map[string]string{}, XInit: "none",
 		Code: fmt.Sprintf("access(all) contract interface %s {\n    access(all) view fun version(): Int\n    access(all) view fun more(): Int\n}\n", name)}
-	p[SSyntaxError] = Src{Label: "syntax-error", Invalid: "cannot deploy invalid contract",
+	p[SSyntaxError] = Src{Label: "syntax-error", Invalid: "type:parser.Error",
 		Code: fmt.Sprintf("access(all) contract %s {\n", name)}
 	p[STwoDecls] = Src{Label: "two-decls", Invalid: "the code must declare exactly one contract or contract interface",
 		Code: fmt.Sprintf("access(all) contract %s {}\naccess(all) contract %sB {}\n", name, name)}
 	p[SNoDecl] = Src{Label: "no-decl", Invalid: "the code must declare exactly one contract or contract interface",
-		Code: "access(all) fun nothing() {}\n"}
+		Code: "// nothing is declared here\n"}
 	p[SInitPanics] = build(name, spec{label: "init-panics", version: 14, xType: "Int", initPanics: true})
 	p[SInitArg] = build(name, spec{label: "init-arg", version: 15, xType: "Int", initArgs: 1})
 	for i := range p {
@@ -269,7 +270,7 @@ type CExpect struct {
 	Logs        []string
 	Fails       bool
 	FailAt      int    // index of the failing action; len(Actions) for the abort; -1: rejected before execution (import)
-	ErrContains string // substring of the error message
+	ErrContains string // substring of the error message, or "type:<Go error type name>"
 	Events      []CEvent
 	HostCalls   []string // "UpdateAccountContractCode <loc>" / "RemoveAccountContractCode <loc>" in order
 	Flags       map[string]bool
@@ -363,7 +364,7 @@ func (m *ContractModel) Apply(tx CTx) CExpect {
 			return s.Invalid
 		}
 		if !UpdateAccepted(m.src(k, cur), s) {
-			return "cannot update contract"
+			return "type:ContractUpdateError"
 		}
 		code[k] = a.Src
 		exp.Events = append(exp.Events, CEvent{"flow.AccountContractUpdated", k.Acct, k.Name, CodeHash(s.Code)})
@@ -442,7 +443,10 @@ func (m *ContractModel) Apply(tx CTx) CExpect {
 			s := m.src(k, cur)
 			if s.HasEnum() {
 				exp.Flags["remove-enum-refused"] = true
-				return fail(i, "cannot remove contract")
+				return fail(i, "type:ContractRemovalError")
+			}
+			if pendingAdd[k] != nil && pendingAdd[k].HasValue {
+				exp.Flags["remove-after-add-same-tx"] = true
 			}
 			delete(code, k)
 			recorded[k] = true
@@ -644,10 +648,12 @@ func (m *ContractModel) VerifyScript() (string, []string) {
 // ContractGenOptions tune the generator.
 type ContractGenOptions struct {
 	MaxActions int // total number of actions of the history (default 25)
-	// AvoidBorrowAfterAdd suppresses `borrow` of a name added earlier in the same
-	// transaction (known finding FK1); OnAvoid is called for each suppressed action.
-	AvoidBorrowAfterAdd bool
-	OnAvoid             func(id string)
+	// Avoid lists known findings whose trigger must not be generated; OnAvoid is
+	// called for each suppressed action.
+	//   FK1: `borrow` of a contract added earlier in the same transaction
+	//   FK2: `remove` of a contract (not interface) added earlier in the same transaction
+	Avoid   map[string]bool
+	OnAvoid func(id string)
 }
 
 // ContractStep is one generated transaction with its expectation and the
@@ -675,21 +681,8 @@ func (m *ContractModel) genAction(c Chooser, tx *CTx, shadow map[CKey]int, start
 	k := CKey{acct, name}
 	cur, deployed := shadow[k]
 	anySrc := func() int { return c.Intn("src", numSources) }
-	// a source that the model accepts as an update of the current one, if any
-	compatible := func() (int, bool) {
-		var ok []int
-		for _, id := range validIDs {
-			if UpdateAccepted(m.src(k, cur), m.src(k, id)) {
-				ok = append(ok, id)
-			}
-		}
-		if len(ok) == 0 {
-			return 0, false
-		}
-		return ok[c.Intn("compat", len(ok))], true
-	}
 	sensible := !Chance(c, "wild", 1, 5)
-	op := Weighted(c, "op", []int{20, 16, 12, 10, 5, 6, 5, 8, 4, 6})
+	op := Weighted(c, "op", []int{20, 14, 14, 14, 5, 6, 5, 8, 4, 6})
 	switch op {
 	case 0: // add
 		a := CAction{Op: "add", Acct: acct, Name: name}
@@ -705,6 +698,9 @@ func (m *ContractModel) genAction(c Chooser, tx *CTx, shadow map[CKey]int, start
 				if len(free) > 0 {
 					kk := free[c.Intn("free", len(free))]
 					a.Acct, a.Name = kk.Acct, kk.Name
+				} else if !(o.Avoid["FK2"] && addedHere[k]) && !m.src(k, cur).HasEnum() {
+					// everything is occupied: make room instead
+					return CAction{Op: "remove", Acct: acct, Name: name}, true
 				}
 			}
 			a.Src = validIDs[c.Intn("validsrc", len(validIDs)-1)] // not init-panics
@@ -738,18 +734,45 @@ func (m *ContractModel) genAction(c Chooser, tx *CTx, shadow map[CKey]int, start
 				cur, deployed = shadow[k]
 			}
 		}
-		if id, ok := compatible(); deployed && ok && (sensible && op == 1 || Chance(c, "compat?", 1, 2)) {
-			a.Src = id
-		} else {
-			a.Src = anySrc()
+		// update: mostly accepted; tryUpdate: mostly a valid but incompatible source
+		mode := Weighted(c, "updmode", []int{12, 5, 3})
+		if op == 2 {
+			mode = Weighted(c, "trymode", []int{7, 10, 3})
+		}
+		if !sensible {
+			mode = 2
+		}
+		a.Src = anySrc()
+		if deployed && mode < 2 {
+			var yes, no []int
+			for _, id := range validIDs {
+				if UpdateAccepted(m.src(k, cur), m.src(k, id)) {
+					yes = append(yes, id)
+				} else {
+					no = append(no, id)
+				}
+			}
+			pickFrom := yes
+			if mode == 1 {
+				pickFrom = no
+			}
+			if len(pickFrom) > 0 {
+				a.Src = pickFrom[c.Intn("updsrc", len(pickFrom))]
+			}
 		}
 		return a, true
 	case 3:
+		if o.Avoid["FK2"] && addedHere[k] {
+			if o.OnAvoid != nil {
+				o.OnAvoid("FK2")
+			}
+			return CAction{}, false
+		}
 		return CAction{Op: "remove", Acct: acct, Name: name}, true
 	case 4:
 		return CAction{Op: "get", Acct: acct, Name: name}, true
 	case 5:
-		if o.AvoidBorrowAfterAdd && addedHere[k] {
+		if o.Avoid["FK1"] && addedHere[k] {
 			if o.OnAvoid != nil {
 				o.OnAvoid("FK1")
 			}
@@ -811,7 +834,7 @@ func GenContractHistory(c Chooser, o ContractGenOptions) *ContractHistory {
 	}
 	m := NewContractModel([]int{1, 2}, []string{"A", "B", "C"})
 	h := &ContractHistory{Accts: m.Accts, Names: m.Names}
-	total := 4 + c.Intn("actions", o.MaxActions-3)
+	total := 6 + c.Intn("actions", o.MaxActions-5)
 	for n := 0; n < total; {
 		tx := CTx{}
 		shadow := map[CKey]int{}
